@@ -42,7 +42,8 @@ THEOREMS = [P + n for n in (
     'shared_dict_counterexample', 'rebind_makes_shared_dict_harmless', 'transform_inplace_counterexample',
     'concat_reorders_argument', 'shared_write_interferes',
     'fresh_producer_sep_side', 'ctor_fresh', 'ctor_safe', 'produce_content_fresh', 'ctor_content',
-    'label_array_alias_counterexample', 'identity_fast_path_counterexample', 'identity_fast_path_fresh_iff')]
+    'label_array_alias_counterexample', 'identity_fast_path_counterexample', 'identity_fast_path_fresh_iff',
+    'container_writeback_counterexample', 'container_writeback_fresh_iff')]
 RULE = ('one case = (public callable found by introspection, argument seed, history of documented '
         'in-place operations on components of the result and of the arguments); arguments are built '
         'from the repo\'s own types by seeded factories (list- and ndarray-valued pattern / rdm / obs / '
@@ -54,7 +55,11 @@ RULE = ('one case = (public callable found by introspection, argument seed, hist
         'means / unit row norms / all-zero rows / constant rows, handed to the estimators without an averaging '
         'step; RDM vectors with zero mean / sorted / unit norm / unit RMS / non-negative / already ranked; weights '
         'summing to 1, identity precision and sigma_k, unit theta — exact in float64, one degenerate property '
-        'per class); pair sessions apply two producers to one object, chain sessions apply an '
+        'per class; and, for every callable with a `noise` parameter, the noise given per cross-validation '
+        'fold as list / tuple / dict keyed by fold / 3-d stack / nested list of NOT exactly symmetric float64 '
+        'matrices — np.linalg.inv output plus a 1-ulp asymmetry —, of exactly symmetric ones, and of the '
+        'library\'s own estimator outputs, with method crossnobis; the identity of every entry of the caller\'s '
+        'containers is part of the argument fingerprint); pair sessions apply two producers to one object, chain sessions apply an '
         'evaluation function to the data object before the call; a case is non-trivial when the call '
         'returned and at least one in-place operation was applied to a component of either side; '
         'the pseudo-case @write-sets compares the mutators\' write sets read from the source text '
@@ -103,6 +108,9 @@ BRANCHES = ['arg:container:0', 'arg:container:1', 'arg:container:2', 'arg:contai
             'arg:values:rdm:nonneg', 'arg:values:rdm:already-ranked',
             'arg:values:weights-sum-1', 'arg:values:prec-identity', 'arg:values:sigma-identity',
             'arg:values:theta-unit', 'arg:values:weight-max-1', 'arg:values:method-matched', 'session:again',
+            'arg:noise:list-asym', 'arg:noise:tuple-asym', 'arg:noise:dict-asym', 'arg:noise:dict-fold-asym',
+            'arg:noise:3d-asym', 'arg:noise:list-sym', 'arg:noise:est-list', 'arg:noise:est-3d',
+            'arg:noise:nested-list-asym', 'arg:noise:per-fold:returned', 'arg:noise:per-fold:raised',
             'tie:write-sets', 'tie:ctor-specs', 'tie:ctor:getitem', 'tie:ctor:subset', 'tie:ctor:subsample',
             'tie:ctor:subset_pattern', 'tie:ctor:subsample_pattern', 'tie:ctor:copy', 'tie:ctor:concat',
             'call:returned', 'call:raised', 'side:result-op', 'side:source-op',
@@ -206,7 +214,7 @@ def coverage_report():
 
 def _key(case):
     return (case['fn'], case.get('with'), case.get('pre'), case['seed'], repr(case.get('hist')), case.get('hseed'),
-            case.get('max_steps'), case.get('shuffle_all'), case.get('vc'), case.get('again'))
+            case.get('max_steps'), case.get('shuffle_all'), case.get('vc'), case.get('again'), case.get('nz'))
 
 
 def label(case):
@@ -220,7 +228,7 @@ def _call(case):
     """build fresh arguments and call; returns dict with source / result objects"""
     q = case['fn']
     kind, fn, owner = callables()[q]
-    self_obj, args, kwargs = A.build_call(q, case['seed'], case.get('vc'))
+    self_obj, args, kwargs = A.build_call(q, case['seed'], case.get('vc'), case.get('nz'))
     _call.tags = list(A.build_call.last_tags)
     full = {'self': self_obj, 'args': args, 'kwargs': kwargs}
     source = _without_receiver(q, full)
@@ -249,6 +257,11 @@ def _call(case):
         # cached attributes); what it returned is dropped, the object is then the argument of fn
         _pre_call(q0, case['seed'], full, case.get('vc'))
     before = H.fingerprint(source)
+    # identity of the entries of the caller's containers (`container[i] is original_i`): a helper
+    # that stores normalised copies back into the user's list / dict replaces entries even where the
+    # values stay bit-identical
+    # (of `source`: the designated receiver of an in-place-by-contract helper is not an argument here)
+    ident = H.entry_identities({'args': list(source['args']), 'kwargs': source['kwargs']})
     try:
         with contextlib.redirect_stdout(io.StringIO()):
             result = A.invoke(kind, fn, owner, q, self_obj, args, kwargs)
@@ -267,6 +280,10 @@ def _call(case):
         after = H.fingerprint(source)
     mutated = None if before == after else (H.fp_diff(before, after) or 'changed')
     _call.all_diffs = [] if before == after else H.fp_diffs(before, after)
+    idd = H.identity_diffs(ident)
+    if idd:
+        mutated = mutated or idd[0]
+        _call.all_diffs = list(_call.all_diffs) + [d for d in idd if d not in _call.all_diffs]
     return source, result, exc, mutated
 
 
@@ -558,6 +575,18 @@ def generate(rng, tier):
             for _ in range(4):
                 yield {'fn': q, 'seed': rng.randrange(1, 10 ** 6), 'hseed': rng.randrange(10 ** 6),
                        'max_steps': 3, 'shuffle_all': True}
+    # per-fold noise containers (round 7; last, so that the streams above are what they were): every
+    # callable with a `noise` parameter (signature) x every container form of NOT exactly symmetric
+    # precision matrices, read per fold (method crossnobis); a helper that writes normalised entries
+    # back into the caller's list / dict / 3-d stack shows in the bit-level + identity fingerprint
+    for q in A.noise_callables(cov):
+        base = rng.randrange(1, 10 ** 6)
+        for i, nz in enumerate(A.NOISE_FORMS):
+            for k in range(1 if tier == 'quick' else 4):
+                c = {'fn': q, 'seed': base + i + k, 'hseed': rng.randrange(10 ** 6), 'nz': nz, 'max_steps': 6}
+                if k % 2:
+                    c['again'] = True
+                yield c
 
 
 def run_impl(case):
@@ -811,6 +840,8 @@ def features(case, impl):
         br.append('session:chain')
     if case.get('again'):
         br.append('session:again')
+    if case.get('nz'):
+        br.append('arg:noise:per-fold:' + ('raised' if o['exc'] else 'returned'))
     if o.get('ctor'):
         br.append('tie:ctor:' + o['ctor']['req']['ctor'])
     for r in o['share']:
